@@ -24,8 +24,9 @@ def classify (p : Bytes) : String :=
   else if fixtureFiles.any (isDirOf p) then "dir"
   else "notfound"
 
-abbrev St := Unit
-def init : St := ()
+/-- Responses produced (`hold`) whose bodies have not been read yet (`drain`): content and header of each, oldest first. -/
+abbrev St := List (String × String)
+def init : St := []
 
 def rangeOp (c h : String) : String :=
   match unhex c, (if h = "none" then some none else (unhex h).map some) with
@@ -35,20 +36,23 @@ def rangeOp (c h : String) : String :=
     | none => showRes (respond cb hb)
   | _, _ => "bad-op"
 
-def step (_ : Unit) (toks : List String) : Unit × String :=
+def step (st : St) (toks : List String) : St × String :=
   match toks with
-  | ["range", c, h] => ((), rangeOp c h)
-  | ["srange", c, h] => ((), rangeOp c h)
+  | ["range", c, h] => (st, rangeOp c h)
+  | ["srange", c, h] => (st, rangeOp c h)
+  -- several responses in flight from one modifier instance: each is what it would be alone, in whatever order the bodies are read
+  | ["hold", _kind, c, h] => (st ++ [(c, h)], "held")
+  | ["drain", _order] => ([], if st.isEmpty then "-" else " | ".intercalate (st.map fun p => rangeOp p.1 p.2))
   | ["path", root, p] =>
     match unhex root, unhex p with
-    | some r, some q => ((), classify (resolve r q))
-    | _, _ => ((), "bad-op")
+    | some r, some q => (st, classify (resolve r q))
+    | _, _ => (st, "bad-op")
   | ["path", root, p, _rawTarget] =>   -- the raw request target is for the harness only (it builds the URL from it)
     match unhex root, unhex p with
-    | some r, some q => ((), classify (resolve r q))
-    | _, _ => ((), "bad-op")
+    | some r, some q => (st, classify (resolve r q))
+    | _, _ => (st, "bad-op")
   | _ => match GoLib.step toks with
-    | some o => ((), o)
-    | none => ((), "bad-op")
+    | some o => (st, o)
+    | none => (st, "bad-op")
 
 end Martian.Drv.C20
